@@ -7,6 +7,7 @@ import (
 	"context"
 	"encoding/json"
 	"fmt"
+	"slices"
 	"sort"
 	"testing"
 	"testing/synctest"
@@ -259,6 +260,17 @@ func runGroup(t *testing.T, tr *vh.Trace, tid string, rows []Row, cached bool) {
 
 		if d.Fl == "r" {
 			err = r.RegisterController(&rt.Probe{NameV: self, InputsV: ins, OutputsV: outs, RunF: func(ctx context.Context, crt controller.Runtime) error {
+				// the same inputs once more through UpdateInputs; the slice handed over stays the caller's: it is scribbled
+				// over afterwards, which must not change what the controller may access
+				mine := slices.Clone(ins)
+				if uerr := crt.UpdateInputs(mine); uerr != nil {
+					return uerr
+				}
+
+				for i := range mine {
+					mine[i] = controller.Input{Namespace: "elsewhere", Type: "Scratch", Kind: controller.InputStrong}
+				}
+
 				hch <- crt
 				<-ctx.Done()
 
